@@ -2,6 +2,7 @@ package main
 
 import (
 	"context"
+	"strings"
 	"fmt"
 	"reflect"
 	"runtime"
@@ -182,7 +183,7 @@ func runImplSched(s SchedCase) (res schedResult) {
 		w := workers[ev.T]
 		if w == nil {
 			if !start(ev.T) {
-				res.err = fmt.Sprintf("thread %d did not reach its first operation", ev.T)
+				res.err = fmt.Sprintf("timeout: thread %d did not reach its first operation", ev.T)
 				return
 			}
 			w = workers[ev.T]
@@ -196,7 +197,7 @@ func runImplSched(s SchedCase) (res schedResult) {
 		l, ret, ok := await(w)
 		ctl.current = nil
 		if !ok {
-			res.err = fmt.Sprintf("event %d: thread %d did not reach its next operation within %v", k, ev.T, stepTimeout)
+			res.err = fmt.Sprintf("timeout: event %d: thread %d did not reach its next operation within %v", k, ev.T, stepTimeout)
 			delete(workers, ev.T)
 			return
 		}
@@ -230,7 +231,7 @@ func runImplSched(s SchedCase) (res schedResult) {
 			l, ret, ok := await(w)
 			ctl.current = nil
 			if !ok {
-				res.err = fmt.Sprintf("drain: thread %d stuck at %s", t, at[t])
+				res.err = fmt.Sprintf("timeout: drain: thread %d stuck at %s", t, at[t])
 				delete(workers, t)
 				return
 			}
@@ -291,6 +292,11 @@ func runSched(c *rig.Ctx, s SchedCase, record bool) bool {
 		for _, l := range res.visited {
 			c.Count("sched-reached:" + l)
 		}
+	}
+	if strings.HasPrefix(res.err, "timeout:") {
+		// a wall-clock wait ran out (twice): the machine is stalled, or the code under test hangs; either way this case
+		// decides nothing. (schedBroken is set: no further schedule is replayed.)
+		return inconclusive(c, "schedule replay", res.err)
 	}
 	if res.err != "" {
 		return fail("diff", "c05.sched-rig", "schedule replay could not run on the real counter: "+res.err, res.steps, nil)
@@ -512,7 +518,7 @@ func runStress(c *rig.Ctx, s StressCase, record bool) bool {
 	case <-fin:
 	case <-time.After(120 * time.Second):
 		close(stop)
-		return fail("c05.stress-hang", "stress goroutines did not finish within 120 s")
+		return inconclusive(c, "stress", "timeout: stress goroutines did not finish within 120 s")
 	}
 	close(stop)
 	<-resizerDone
@@ -660,7 +666,7 @@ func runStressFull(c *rig.Ctx, s StressCase, record bool) bool {
 	case <-fin:
 	case <-time.After(120 * time.Second):
 		close(stop)
-		return fail("c05.stress-hang", "stress goroutines did not finish within 120 s")
+		return inconclusive(c, "stress", "timeout: stress goroutines did not finish within 120 s")
 	}
 	close(stop)
 	<-cfgDone
